@@ -55,7 +55,7 @@ fn make_target(name: &str, dim: usize, rng: &mut HRng) -> Target {
 fn gen_hist(seed: u64, idx: u64) -> Hist {
     let mut rng = HRng::new(seed).fork(idx);
     let preset = ALL_PRESETS[(idx % 6) as usize];
-    let mut dim = *rng.choose(&[0usize, 1, 2, 3, 5, 10]);
+    let mut dim = *rng.choose(&[0usize, 1, 2, 3, 5, 10, 17, 36]);
     if !preset.is_nuts() && dim < 2 {
         dim = 2;
     }
@@ -85,8 +85,15 @@ fn gen_hist(seed: u64, idx: u64) -> Hist {
         if rng.bool(0.3) {
             patches.push(("trajectory_kind".into(), json!("ExactNormal")));
         }
-        if rng.bool(0.2) {
+        // step size method: mostly the default, sometimes Adam or a fixed step
+        let m = rng.unif();
+        if m < 0.2 {
             patches.push(("adapt_options.step_size_settings.adapt_options.method".into(), json!("Adam")));
+        } else if m < 0.35 {
+            patches.push(("adapt_options.step_size_settings.adapt_options.method".into(), json!({"Fixed": rng.log_range(0.05, 0.9)})));
+        }
+        if rng.bool(0.2) {
+            patches.push(("extra_doublings".into(), json!(rng.int_range(1, 2))));
         }
     } else {
         patches.push(("step_size".into(), json!(rng.log_range(0.05, 0.9))));
@@ -133,6 +140,7 @@ fn run_hist(report: &mut Report, hst: &Hist, verbose: bool) {
     }
     let settings = chain.settings_json().clone();
     let maxdepth = get_path(&settings, "maxdepth").and_then(|v| v.as_u64());
+    let extra_doublings = get_path(&settings, "extra_doublings").and_then(|v| v.as_u64()).unwrap_or(0);
     let max_energy_error = get_path(&settings, "max_energy_error").and_then(|v| v.as_f64()).unwrap_or(f64::INFINITY);
     let sig = |what: &str| format!("C03:{pname}:{what}");
     let mut prev_pos = start.clone();
@@ -224,13 +232,15 @@ fn run_hist(report: &mut Report, hst: &Hist, verbose: bool) {
             let depth = out.u64("depth").unwrap_or(0);
             depth_seen.insert(depth);
             let md = maxdepth.unwrap_or(10);
-            if depth > md {
+            // after a U-turn of the whole tree `extra_doublings` more doublings are made without a turning check
+            if depth > md + extra_doublings {
                 report.violation(sig("depth_above_maxdepth"), format!("draw {d}: depth {depth} > {md}"), replay.clone());
             }
             if let Some(ns) = n_steps {
                 if dim > 0 {
                     let lo = (1u64 << depth) - 1;
-                    let hi = (1u64 << (depth + 1)) - 1;
+                    // every extra doubling attempt adds at most 2^depth leapfrogs, whether it is kept or not
+                    let hi = (1u64 << (depth + 1)) - 1 + extra_doublings * (1u64 << depth);
                     if ns < lo || ns > hi {
                         report.violation(sig("steps_vs_depth"), format!("draw {d}: depth {depth} but n_steps {ns}"), replay.clone());
                     }
@@ -313,7 +323,8 @@ struct Audit {
 
 fn gen_audit(seed: u64, idx: u64) -> Audit {
     let mut rng = HRng::new(seed).fork(0xA0D17 + idx);
-    let d = 1 + rng.below(8) as usize;
+    // mostly small; one case in five is wide enough for the unrolled vector loops of the U-turn and energy kernels
+    let d = if idx % 5 == 4 { *rng.choose(&[16usize, 17, 24, 33, 48]) } else { 1 + rng.below(8) as usize };
     let kind = if idx % 3 == 0 { KineticEnergyKind::ExactNormal } else { KineticEnergyKind::Euclidean };
     let target = match (idx / 3) % 5 {
         0 => Target::iso(d, 0.2),
